@@ -331,7 +331,7 @@ namespace smt
 
         if (ls.empty()) // an empty exact-one is assumed to be unsatisfable..
             return FALSE_lit;
-        else if (ls.size() == 1 && sign(ls[0]))
+        else if (ls.size() == 1) // exactly one out of a single literal holds iff the literal holds..
             return ls[0];
         else if (const auto at_expr = exprs.find(s_expr); at_expr != exprs.cend()) // the expression already exists..
             return at_expr->second;
